@@ -76,6 +76,14 @@ def valid_indices(records):
     return [tuple(ix) for ix in itertools.product(*[range(d) for d in dims])], len(dims)
 
 
+def shape_dims(records):
+    """axis sizes below the record axis (as valid_indices discovers them)"""
+    idxs, depth = valid_indices(records)
+    if not idxs:
+        return []
+    return [max(ix[k] for ix in idxs) + 1 for k in range(depth)]
+
+
 def component(rec, idx):
     for i in idx:
         rec = rec[i]
@@ -104,6 +112,19 @@ def check_get(C, drv, L, h, key, tag):
         exp = tolist_keys(np.hstack([np.asarray(c) for c in comps]))
         if got != exp:
             C.issue('get-wrong-series', 'oracle', rp, got=str(got)[:200], expected=str(exp)[:200])
+        # negative entries count from the end of their axis (down to minus the axis size, which is element 0)
+        dims_ = shape_dims(records)
+        if dims_ and len(dims_) == len(ix):
+            for mode in ('all-negative', 'minus-size'):
+                ixm = tuple(i_ - d_ for i_, d_ in zip(ix, dims_)) if mode == 'all-negative' else tuple((-d_ if i_ == 0 else i_) for i_, d_ in zip(ix, dims_))
+                if ixm == tuple(ix):
+                    continue
+                try:
+                    outm = tolist_keys(h.get(key, ixm))
+                    if outm != got:
+                        C.issue('get-wrong-series', 'oracle', dict(rp, index=list(ixm), same_as=list(ix)), got=str(outm)[:200], expected=str(got)[:200])
+                except Exception as ex:
+                    C.issue('get-raised', 'oracle', dict(rp, index=list(ixm), same_as=list(ix)), error=type(ex).__name__ + ': ' + str(ex)[:80])
         # the same index written with NumPy integers (what np.argmin / np.arange hand out) addresses the same component
         for conv, nm in ((np.int64, 'int64'), (np.intp, 'intp')):
             ixn = tuple(conv(i_) for i_ in ix)
@@ -339,6 +360,34 @@ def check(ctx):
             prev_hist = h
             if len(family) < 4 and all(hist_digest.digest(h, L['Node']) != hist_digest.digest(g_, L['Node']) for g_, _ in family):
                 family.append((h, c))
+        # fitness values of other numeric classes than float (exact rationals, decimals): what was saved is what is loaded
+        import fractions as _fr, decimal as _dec
+        for kind_, mk_ in (('HC', lambda v: _fr.Fraction(int(round(v * 4096)), 4096)), ('PSO', lambda v: _dec.Decimal(repr(round(v, 6)))),
+                           ('SA', lambda v: _fr.Fraction(int(round(v * 64)), 64))):
+            rpf = dict(how='saveload-numeric-class', kind=kind_)
+            try:
+                np.random.seed(31)
+                spf = L['SearchSpace'](n_agents=3, n_variables=2, n_iterations=3, lower_bound=[-2, -2], upper_bound=[2, 2])
+                obj = (lambda mk__: (lambda x: mk__(float(np.sum(np.asarray(x, dtype=float) ** 2)))))(mk_)
+                hf = L['Opytimizer'](space=spf, optimizer=L['kinds'][kind_](), function=L['Function'](pointer=obj)).start()
+            except Exception as ex:
+                # (a kind that cannot work with such values at all is not this check's business)
+                C.case(key=('saveload-numeric-class', kind_, 'unsupported'), nontrivial=False, kind='saveload-numeric-class-unsupported')
+                continue
+            pf = os.path.join(scratch, f'numeric_{kind_}.pkl')
+            try:
+                hf.save(pf)
+                hg = L['History']()
+                hg.load(pf)
+                a_, b_ = vars(hf), vars(hg)
+                if set(a_) != set(b_) or any(not same_attr(a_[k_], b_[k_]) for k_ in a_):
+                    C.issue('value-differs-after-load', 'oracle', rpf)
+            except Exception as ex:
+                C.issue('save-load-raised', 'oracle', rpf, error=type(ex).__name__ + ': ' + str(ex)[:80])
+            finally:
+                if os.path.exists(pf):
+                    os.remove(pf)
+            C.case(key=('saveload-numeric-class', kind_), nontrivial=True, kind='saveload-numeric-class')
         # several histories saved side by side in one directory (a hyperparameter sweep, one file per seed): every name given
         # to save() reads back, through load() of that same name, the history that was saved under it
         import shutil as _sh
